@@ -293,22 +293,22 @@ impl EditState {
 
             let mut saved_line = Vec::new();
 
+            // every row of the area hands its cells to the row above; the cells of the first row go to the last one
             for y in area.y_range() {
                 let line = &mut layer.lines[y as usize];
                 if line.chars.len() < area.right() as usize {
                     line.chars.resize(area.right() as usize, AttributedChar::invisible());
                 }
+                let chars = line.chars.drain(area.left() as usize..area.right() as usize).collect::<Vec<AttributedChar>>();
                 if y == area.top() {
-                    saved_line.extend(line.chars.drain(area.left() as usize..area.right() as usize));
+                    saved_line = chars;
                     continue;
                 }
-                if y == area.bottom() - 1 {
-                    line.chars.splice(area.right() as usize..area.right() as usize, saved_line.iter().copied());
-                }
-                let chars = line.chars.drain(area.left() as usize..area.right() as usize).collect::<Vec<AttributedChar>>();
                 let line_above = &mut layer.lines[y as usize - 1];
                 line_above.chars.splice(area.left() as usize..area.left() as usize, chars);
             }
+            let last_line = &mut layer.lines[area.bottom() as usize - 1];
+            last_line.chars.splice(area.left() as usize..area.left() as usize, saved_line);
             let new_layer = Layer::from_layer(layer, area);
             let op = super::undo_operations::UndoLayerChange::new(self.get_current_layer()?, area.start, old_layer, new_layer);
             self.push_plain_undo(Box::new(op))
@@ -333,22 +333,22 @@ impl EditState {
 
             let mut saved_line = Vec::new();
 
+            // every row of the area hands its cells to the row below; the cells of the last row go to the first one
             for y in area.y_range().rev() {
                 let line = &mut layer.lines[y as usize];
                 if line.chars.len() < area.right() as usize {
                     line.chars.resize(area.right() as usize, AttributedChar::invisible());
                 }
+                let chars = line.chars.drain(area.left() as usize..area.right() as usize).collect::<Vec<AttributedChar>>();
                 if y == area.bottom() - 1 {
-                    saved_line.extend(line.chars.drain(area.left() as usize..area.right() as usize));
+                    saved_line = chars;
                     continue;
                 }
-                if y == area.top() {
-                    line.chars.splice(area.right() as usize..area.right() as usize, saved_line.iter().copied());
-                }
-                let chars = line.chars.drain(area.left() as usize..area.right() as usize).collect::<Vec<AttributedChar>>();
                 let line_below = &mut layer.lines[y as usize + 1];
                 line_below.chars.splice(area.left() as usize..area.left() as usize, chars);
             }
+            let first_line = &mut layer.lines[area.top() as usize];
+            first_line.chars.splice(area.left() as usize..area.left() as usize, saved_line);
             let new_layer = Layer::from_layer(layer, area);
             let op = super::undo_operations::UndoLayerChange::new(self.get_current_layer()?, area.start, old_layer, new_layer);
             self.push_plain_undo(Box::new(op))
